@@ -913,3 +913,66 @@ package schema
 //@   ensures (err == nil) == (res != nil)
 //@ func UnserializeScope(data) -> res, err
 //@   ensures (err == nil) == (res != nil)
+
+// ---------------------------------------------------------------------------------------------
+// C01: Serialize / Unserialize are mutual inverses; typed entry points agree with the untyped ones.
+// The harnesses verifC01* (verif_harness.go) state the property for one scalar kind each; they are proved
+// against the contracts of the operations. "names" clauses give the (deterministic, see C12) result of an
+// untyped entry point a name so that the typed entry point, which delegates to it, can be tied to it.
+// ---------------------------------------------------------------------------------------------
+
+//@ abstract intUnserOK(i IntSchema, d any) bool
+//@ abstract intUnserV(i IntSchema, d any) any
+//@ abstract floatUnserOK(f FloatSchema, d any) bool
+//@ abstract floatUnserV(f FloatSchema, d any) any
+//@ abstract boolUnserOK(b BoolSchema, d any) bool
+//@ abstract boolUnserV(b BoolSchema, d any) any
+//@ abstract strUnserOK(s StringSchema, d any) bool
+//@ abstract strUnserV(s StringSchema, d any) string
+
+//@ func IntSchema.Unserialize(i, data) -> res, err
+//@   names (err == nil) == intUnserOK(i, data)
+//@   names err == nil ==> res == intUnserV(i, data)
+//@   ensures typeOf(data) == type(uint64) && data.(uint64) <= 9223372036854775807 ==> ((err == nil) == inBoundsI(i.MinValue, i.MaxValue, int64(data.(uint64)))) && (err == nil ==> res == any(int64(data.(uint64))))
+//@ func IntSchema.UnserializeType(i, data) -> res, err
+//@   ensures (err == nil) == intUnserOK(i, data)
+//@   ensures err == nil ==> any(res) == intUnserV(i, data)
+
+//@ func FloatSchema.Unserialize(f, data) -> res, err
+//@   names (err == nil) == floatUnserOK(f, data)
+//@   names err == nil ==> res == floatUnserV(f, data)
+//@ func FloatSchema.UnserializeType(f, data) -> res, err
+//@   ensures (err == nil) == floatUnserOK(f, data)
+//@   ensures err == nil ==> any(res) == floatUnserV(f, data)
+
+//@ func BoolSchema.Unserialize(b, data) -> res, err
+//@   names (err == nil) == boolUnserOK(b, data)
+//@   names err == nil ==> res == boolUnserV(b, data)
+//@ func BoolSchema.UnserializeType(b, data) -> res, err
+//@   ensures (err == nil) == boolUnserOK(b, data)
+//@   ensures err == nil ==> any(res) == boolUnserV(b, data)
+//@ func BoolSchema.Validate(b, data) -> err
+//@   ensures (err == nil) == (data != nil && kindOf(data) == KindBool)
+//@   assigns nothing
+//@ func BoolSchema.ValidateType(b, data) -> err
+//@   ensures err == nil
+//@   assigns nothing
+//@ func BoolSchema.SerializeType(b, data) -> res, err
+//@   ensures err == nil && res == any(data)
+//@   assigns nothing
+
+//@ func StringSchema.UnserializeType(s, data) -> res, err
+//@   names (err == nil) == strUnserOK(s, data)
+//@   names err == nil ==> res == strUnserV(s, data)
+//@ func StringSchema.Unserialize(s, data) -> res, err
+//@   ensures (err == nil) == strUnserOK(s, data)
+//@   ensures err == nil ==> res == any(strUnserV(s, data))
+
+//@ func verifC01Int(s, data)
+//@   requires s != nil
+//@ func verifC01Float(s, data)
+//@   requires s != nil
+//@ func verifC01String(s, data)
+//@   requires s != nil
+//@ func verifC01Bool(s, data)
+//@   requires s != nil
